@@ -563,7 +563,11 @@ func applyDefect(r *rand.Rand, c *gen.PI, first bool) (Defect, bool) {
 			if s.All {
 				return d, false
 			}
-			s.Amt = &gen.Expr{K: "add", L: gen.Mon(gen.Asset(a), gen.Num("1")), R: bad}
+			// the sum or the difference of two monetaries of different assets, either way round
+			s.Amt = &gen.Expr{K: core.Pick(r, []string{"add", "sub", "sub"}), L: gen.Mon(gen.Asset(a), gen.Num("100")), R: bad}
+			if r.IntN(3) == 0 {
+				s.Amt.L, s.Amt.R = s.Amt.R, s.Amt.L
+			}
 		default:
 			old := *s.Dst
 			s.Dst = &gen.Dst{K: "seq", Clauses: []gen.DstClause{{Cap: *bad, To: gen.KoD{D: &gen.Dst{K: "acc", E: gen.Acc("b")}}}}, Rem: &gen.KoD{D: &old}}
